@@ -60,3 +60,8 @@ Theorem c10_read_frame : forall t pl data rest cs e,
   frame (t :: pl) = Ok data ->
   read_packet2 (mk (data ++ rest) cs e) = (mk rest cs e, PktOk t pl).
 Proof. exact read_frame. Qed.
+
+(* whole KEXINIT messages *)
+From VProofs Require Import MsgProofs.
+Theorem c10_kexinit_roundtrip : forall k p r, wf_kexinit k -> write_kexinit k = Ok p -> parse_kexinit (p ++ r) = Ok (k, r).
+Proof. exact kexinit_roundtrip. Qed.
